@@ -2,6 +2,14 @@
 import numpy as np, z3
 
 
+def _base(rng, R, C, D, ax):
+    base = rng.randint(0, 5, size=(R, C, D)).astype(np.float32)
+    nanmask = rng.rand(R, C, D) < 0.2
+    if ax != 2:          # stripes along the disparity axis keep every concrete cost computable (count == D possible)
+        base[nanmask] = np.nan
+    return base
+
+
 def _disps(D, subpix, dmin):
     return np.arange(D, dtype=np.float64) / subpix + dmin
 
@@ -14,8 +22,7 @@ def _build(xr, S, R, C, D, measure, stripe, seed, subpix, dmin):
         shape_cv = (R, C, D); sym_index = None
     else:
         ax, lo, hi = stripe
-        base = rng.randint(0, 5, size=(R, C, D)).astype(np.float32)
-        base[rng.rand(R, C, D) < 0.2] = np.nan
+        base = _base(rng, R, C, D, ax)
         cv = S.SymArray(base, 'f4')
         shp = list((R, C, D)); shp[ax] = hi - lo
         sub = S.fresh_array('cv', tuple(shp), 'f4')
@@ -79,10 +86,17 @@ def wta(R, C, D, measure, invalid='-9999', stripe=None, seed=0, subpix=1, dmin=-
                         continue
                 allnan = z3.And(*[z3.fpIsNaN(x) for x in costs])
                 cases = []
-                for d in range(D):
+                # candidates: every symbolic cost + the first best of the concrete ones (it dominates the other concrete costs)
+                cand = [d for d in range(D) if isinstance(cv0._a[r, c, d], S.Sym)]
+                conc = [d for d in range(D) if not isinstance(cv0._a[r, c, d], S.Sym) and not np.isnan(cv0._a[r, c, d])]
+                if conc:
+                    vals = np.array([cv0._a[r, c, d] for d in conc], dtype=np.float32)
+                    cand.append(conc[int(np.argmin(vals) if measure == 'min' else np.argmax(vals))])
+                cand.sort()
+                for d in cand:
                     isbest = z3.And(z3.Not(z3.fpIsNaN(costs[d])),
-                                    *[z3.Or(z3.fpIsNaN(costs[e]), z3.Not(better(costs[e], costs[d]))) for e in range(D) if e != d],
-                                    *[z3.Or(z3.fpIsNaN(costs[e]), better(costs[d], costs[e])) for e in range(d)])
+                                    *[z3.Or(z3.fpIsNaN(costs[e]), z3.Not(better(costs[e], costs[d]))) for e in cand if e != d],
+                                    *[z3.Or(z3.fpIsNaN(costs[e]), better(costs[d], costs[e])) for e in cand if e < d])
                     cases.append(z3.Implies(isbest, ot == z3.FPVal(float(np.float32(disps[d])), z3.Float32())))
                 props.append(("wta[%d,%d]" % (r, c), z3.And(z3.Implies(allnan, S.term_eq(o, inv, 'f4')), *cases)))
         # cost volume bitwise unchanged, mask and confidence carried over, interval and disp_indices
@@ -98,7 +112,8 @@ def wta(R, C, D, measure, invalid='-9999', stripe=None, seed=0, subpix=1, dmin=-
         dix = ds["disp_indices"].data
         props.append(("disp-indices", z3.And(*[S.term_eq(dix._a[i], dm._a[i], 'f4') for i in np.ndindex(R, C)])))
         props.append(("inputs-dataset-vars", z3.BoolVal(set(out.data_vars) == {"disparity_map", "disparity_interval", "confidence_measure", "validity_mask"})))
-        wit = [("some-pixel-all-nan", z3.Or(*[z3.And(*[z3.fpIsNaN(S.lift(cv0._a[r, c, d], 'f4')) for d in range(D)])
+        wit = [("count-of-computable-costs-equals-%d" % (D - 1), z3.Or(*[z3.Xor(z3.fpIsNaN(S.lift(cv0._a[r, c, 0], 'f4')), z3.fpIsNaN(S.lift(cv0._a[r, c, 1], 'f4')))
+                                                        for r in range(R) for c in range(C)]))] if (stripe and stripe[0] == 2) else [("some-pixel-all-nan", z3.Or(*[z3.And(*[z3.fpIsNaN(S.lift(cv0._a[r, c, d], 'f4')) for d in range(D)])
                                                for r in range(R) for c in range(C) if isinstance(cv0._a[r, c, 0], S.Sym)])),
                ("a-tie-exists", z3.Or(*[z3.fpEQ(S.lift(cv0._a[r, c, 0], 'f4'), S.lift(cv0._a[r, c, 1], 'f4'))
                                         for r in range(R) for c in range(C) if isinstance(cv0._a[r, c, 0], S.Sym)]))] if D >= 2 else []
@@ -138,8 +153,7 @@ def replay(cex):
         cv = np.array(inp['cv'], dtype=np.float32).reshape(R, C, D)
     else:
         ax, lo, hi = x['stripe']
-        cv = rng.randint(0, 5, size=(R, C, D)).astype(np.float32)
-        cv[rng.rand(R, C, D) < 0.2] = np.nan
+        cv = _base(rng, R, C, D, ax)
         sl = [slice(None)] * 3; sl[ax] = slice(lo, hi)
         cv[tuple(sl)] = np.array(inp['cv'], dtype=np.float32)
     vm = rng.randint(0, 4096, size=(R, C)).astype(np.uint16)
